@@ -4,7 +4,8 @@ import ast
 
 from .. import AnalysisError
 from ..cfg import ALL_KINDS, NORMAL_KINDS, iter_own
-from ..lib import collections_from, dominated_by, iteration_paths, guard_forms, key_of, norm, render, type_is
+from ..guards import canon
+from ..lib import collections_from, dominated_by, inline_locals, inlined, inlined_guards, iteration_paths, only_return, guard_forms, key_of, norm, render, type_is
 from ..report import describe, rule
 from .common import report_role, role_typestate
 
@@ -204,6 +205,17 @@ def closure_before_consumers(ctx, r, rid):
                     "keep their old rows (two entries per job afterwards) or are not reset", "afterwards the results again hold one entry per job")
     if n < 2:
         raise AnalysisError(rid, f"only {n} consumers of the rerun set recognised (expected the result pruning and the state reset)")
+    # pruning first, state reset second: if the pruning fails the submission is still complete and untouched; the other way
+    # round a failed pruning leaves a re-opened submission with every old row in place (try-submit-jobs then reruns the
+    # jobs and the results hold two entries per job)
+    prunes = [n for s in ctx.cg.sites_in(fn) if "RESULT_WRITE" in ctx.site_may(s) and not s.calls_short(ctx.ix, "Cluster.deserialize") and not (ctx.site_may(s) & {"HANDOFF", "LAUNCH"}) for n in ctx.nodes_of(fn, s.node)]
+    resets = [(s, n) for s in ctx.sites(fn, short="Cluster.prepare_for_resubmission") for n in ctx.nodes_of(fn, s.node)]
+    if not prunes or not resets:
+        raise AnalysisError(rid, f"result pruning ({len(prunes)}) / state reset ({len(resets)}) not found in resubmit_jobs")
+    for s, n in resets:
+        r.check(dominated_by(ctx, fn, n, prunes), "the results are pruned before the submission is re-opened", key_of(fn, "state reset before the result pruning"), s.loc,
+                "prepare_for_resubmission() runs before the old rows were pruned: if the pruning then fails (results lock timeout, I/O error) the submission is already re-opened with all old rows in place, "
+                "the documented way forward (try-submit-jobs) reruns the jobs and the results end up with two entries per job", "a failure of the command never leaves the submission with ... no way forward / one entry per job")
 
 
 def reset_restores_blockers(ctx, r, pf):
@@ -226,11 +238,23 @@ def reset_restores_blockers(ctx, r, pf):
 
 @rule(P, "C13.5", "T14", "the dependent-closure loop stops early only on a fixpoint and is bounded by the number of jobs", min_obligations=3)
 def c13_5(ctx, r):
+    """Roles instead of spellings: S = the rerun set (first parameter), M = the mapping returned, v = the scan variable,
+    `v.get_blocking_jobs()` = the job's blockers; conditions are compared with intermediate locals inlined."""
     fn = ctx.fn("resubmit_jobs._update_with_blocking_jobs", "C13.5")
+    S = fn.params[0]
+    rebinds = [n for n in iter_own(fn.node) if isinstance(n, (ast.Assign, ast.AugAssign, ast.AnnAssign)) and any(isinstance(t, ast.Name) and t.id == S for t in (n.targets if isinstance(n, ast.Assign) else [n.target]))]
+    r.check(not rebinds, "the rerun set is grown in place (the caller's set object)", key_of(fn, f"{S} rebound"), fn.loc(rebinds[0]) if rebinds else fn.loc(),
+            f"`{ctx.src(rebinds[0]) if rebinds else ''}` rebinds the parameter: the dependents are added to a private copy, while resubmit-jobs goes on to prune results and reset states with its own (unclosed) set - "
+            "dependents that were not selected by the flags themselves are not rerun", "plus every job that transitively depends on one of them")
     loops = [n for n in fn.node.body if isinstance(n, (ast.For, ast.While))]
     if len(loops) != 1:
         raise AnalysisError("C13.5", f"expected one outer closure loop, found {len(loops)}")
     lp = loops[0]
+    mret = only_return(ctx, fn)
+    rn = [n for n in ctx.cfg(fn).nodes if n.kind == "stmt" and isinstance(n.ast, ast.Return)]
+    M = rn[0].ast.value.id if rn and isinstance(rn[0].ast.value, ast.Name) else None
+    if M is None:
+        raise AnalysisError("C13.5", "the closure does not return a local mapping")
     if isinstance(lp, ast.While):
         r.ok("closure loop is unbounded (while)")
     else:
@@ -240,66 +264,101 @@ def c13_5(ctx, r):
         if ok:
             a = it.args[0]
             nodes = ctx.cfg(fn).nodes_of(lp.iter)
-            e = ctx.guards(fn).expand(a, nodes[0]) if nodes else a
+            e = inline_locals(ctx, fn, a, nodes[0]) if nodes else a
             bound = render(ctx, fn, e)
-        r.check(ok and bound is not None and bound in ("len(<JobConfiguration._jobs>)", "call:JobConfiguration.get_num_jobs()@config"),
-                "pass bound = number of configured jobs", key_of(fn, "closure bound"), fn.loc(lp),
+            okb = bound in ("len(<JobConfiguration._jobs>)", "<JobConfiguration.get_num_jobs>()") or bound.startswith("call:JobConfiguration.get_num_jobs()")
+        r.check(ok and okb, "pass bound = number of configured jobs", key_of(fn, "closure bound"), fn.loc(lp),
                 f"the closure loop runs at most {bound} passes: a dependency chain listed in reverse order needs one pass per link, so dependents beyond the bound are not rerun",
                 "plus every job that transitively depends on one of them", bound=bound)
     # early exits: every break in the outer loop is guarded by "this pass added nothing"
     brks = [n for n in ast.walk(lp) if isinstance(n, ast.Break) and ctx.enclosing(fn, n, (ast.For, ast.While))[0] is lp]
+    import re as _re
+
     for b in brks:
         for node in ctx.nodes_of(fn, b):
-            forms = guard_forms(ctx, fn, node)
-            okb = any(p and ("== 0" in f) and ("len(jobs_to_resubmit)" in f or "num_added" in f) for f, p in forms)
+            g = ctx.guards(fn)
+            okb, seen_forms = False, []
+            for key, pol, e in g.at(node):
+                seen_forms.append(("" if pol else "not ") + key)
+                if not (pol and isinstance(e, ast.Compare) and len(e.ops) == 1 and isinstance(e.ops[0], ast.Eq)):
+                    continue
+                l, rt = e.left, e.comparators[0]
+                if isinstance(l, ast.Constant):
+                    l, rt = rt, l
+                tnode = g.origin[key][0] if key in g.origin else None
+                # one level only: `first = len(S)` is a snapshot taken at the top of the pass and must stay a name
+                if isinstance(l, ast.Name) and tnode is not None:
+                    l = g.expand(l, tnode, depth=1)
+                txt = ctx.src(l).replace(" ", "")
+                m = None
+                if isinstance(rt, ast.Constant) and rt.value == 0:
+                    m = _re.fullmatch(rf"len\({S}\)-(\w+)", txt)
+                elif isinstance(rt, ast.Name) and txt == f"len({S})":
+                    m = _re.fullmatch(r"(\w+)", rt.id)
+                if m:
+                    first = m.group(1)
+                    defs = [x for x in lp.body if isinstance(x, ast.Assign) and isinstance(x.targets[0], ast.Name) and x.targets[0].id == first]
+                    okb = okb or (len(defs) == 1 and ctx.src(defs[0].value).replace(" ", "") == f"len({S})")
             r.check(okb, "early exit only when a pass added nothing", key_of(fn, "closure early exit"), fn.loc(b),
-                    f"the closure loop breaks under {sorted(f for f, p in forms)}, not on 'no job added in this pass': transitive dependents are missed",
-                    guards=sorted(("" if p else "not ") + f for f, p in forms))
+                    f"the closure loop breaks under {sorted(seen_forms)}, not on 'no job added in this pass' (len({S}) unchanged since the top of the pass): transitive dependents are missed",
+                    guards=sorted(seen_forms))
     if not brks and isinstance(lp, ast.While):
         raise AnalysisError("C13.5", "unbounded closure loop without a break")
     # the inner scan is over all configured jobs, unconditionally adds a job that intersects
     inner = [n for n in ast.walk(lp) if isinstance(n, ast.For) and n is not lp]
-    ok_inner = bool(inner) and "iter_jobs" in ctx.src(inner[0].iter)
+    isite = ctx.cg.site_of(fn, inner[0].iter) if inner and isinstance(inner[0].iter, ast.Call) else None
+    ok_inner = isite is not None and isite.calls_short(ctx.ix, "JobConfiguration.iter_jobs") and not inner[0].iter.args and not inner[0].iter.keywords
     r.check(ok_inner, "each pass scans every configured job", key_of(fn, "inner scan"), fn.loc(lp), "the closure pass does not iterate config.iter_jobs()")
-    adds = [n for n in ast.walk(lp) if isinstance(n, ast.Call) and isinstance(n.func, ast.Attribute) and n.func.attr == "add" and ctx.src(n.func.value) == "jobs_to_resubmit"]
+    if not ok_inner:
+        return
+    v = ctx.src(inner[0].target)
+    inter = (f"{v}.get_blocking_jobs().intersection({S})", f"{S}.intersection({v}.get_blocking_jobs())", f"{v}.get_blocking_jobs()&{S}", f"{S}&{v}.get_blocking_jobs()")
+    adds = [n for n in ast.walk(lp) if isinstance(n, ast.Call) and isinstance(n.func, ast.Attribute) and n.func.attr == "add" and ctx.src(n.func.value) == S]
     for a in adds:
         for node in ctx.nodes_of(fn, a):
-            forms = {f for f, p in guard_forms(ctx, fn, node) if p}
-            r.check(any("intersection(jobs_to_resubmit)" in f or "intersecting_jobs" in f for f in forms), "a job is added when one of its blockers is selected", key_of(fn, "closure add"), fn.loc(a),
+            forms = {f for f, p in inlined_guards(ctx, fn, node) if p}
+            r.check(bool(forms & set(inter)), "a job is added when one of its blockers is selected", key_of(fn, "closure add"), fn.loc(a),
                     f"jobs are added to the rerun set under {sorted(forms)}")
     if not adds:
-        r.bad(key_of(fn, "closure never adds"), fn.loc(lp), "the closure loop never adds dependents to jobs_to_resubmit")
+        r.bad(key_of(fn, "closure never adds"), fn.loc(lp), f"the closure loop never adds dependents to {S}")
     # the blockers handed to the state reset are the original blockers restricted to the rerun set
-    stores = [n for n in ast.walk(lp) if isinstance(n, ast.Assign) and isinstance(n.targets[0], ast.Subscript) and ctx.src(n.targets[0].value) == "updated_blocking_jobs_by_name"]
+    stores = [n for n in ast.walk(lp) if isinstance(n, ast.Assign) and isinstance(n.targets[0], ast.Subscript) and ctx.src(n.targets[0].value) == M]
     if not stores:
         r.bad(key_of(fn, "no restricted blockers"), fn.loc(lp), "the closure no longer records the restricted blocker sets of rerun dependents")
     for st in stores:
-        v = st.value
         okv = False
         for node in ctx.nodes_of(fn, st):
-            e = ctx.guards(fn).expand(v, node) if isinstance(v, ast.Name) else v
-            txt = ctx.src(e).replace(" ", "")
-            okv = txt in ("blocking_jobs.intersection(jobs_to_resubmit)", "jobs_to_resubmit.intersection(blocking_jobs)", "blocking_jobs&jobs_to_resubmit", "jobs_to_resubmit&blocking_jobs",
-                          "job.get_blocking_jobs().intersection(jobs_to_resubmit)")
+            okv = inlined(ctx, fn, st.value, node) in inter
         r.check(okv, "remaining blockers of a rerun dependent = its blockers restricted to the rerun set", key_of(fn, "restricted blockers"), fn.loc(st),
                 f"`{ctx.src(st)}`: a rerun dependent keeps blockers that are not rerun; those are already done, never complete again, so the dependent stays blocked for ever and ends up missing",
                 "each once and in dependency order ... afterwards the results again hold one entry per job")
-        r.check(ctx.src(st.targets[0].slice) == "job.name", "stored under the dependent's name", key_of(fn, "restricted blockers key"), fn.loc(st), f"stored under {ctx.src(st.targets[0].slice)}")
+        r.check(ctx.src(st.targets[0].slice) == f"{v}.name", "stored under the dependent's name", key_of(fn, "restricted blockers key"), fn.loc(st), f"stored under {ctx.src(st.targets[0].slice)}")
     # every pass records the restricted set of every job with a selected blocker: the only ways past the store are
     # "no blockers" / "no selected blocker" (a job recorded by an earlier pass must be re-recorded: the rerun set grew)
     if stores and inner:
         snodes = [n for st in stores for n in ctx.nodes_of(fn, st)]
-        for end, conds, last in iteration_paths(ctx, fn, inner[0], avoid=snodes):
-            falsy = {f for f, p in conds if not p}
-            okp = end == "next" and any(f in ("blocking_jobs", "intersecting_jobs") or "get_blocking_jobs()" in f or "intersection(jobs_to_resubmit)" in f for f in falsy)
+        cfg = ctx.cfg(fn)
+        for end, conds, last, path in iteration_paths(ctx, fn, inner[0], avoid=snodes, with_path=True):
+            falsy = set()
+            for node, kind, cond in path:
+                if kind in ("T", "F") and cond is not None:
+                    k2, p2, _ = canon(inline_locals(ctx, fn, cond, node))
+                    if (kind == "T") != p2:
+                        falsy.add(k2.replace(" ", ""))
+            okp = end == "next" and bool(falsy & (set(inter) | {f"{v}.get_blocking_jobs()"}))
             other = sorted(("" if p else "not ") + f for f, p in conds)
             r.check(okp, "a job is passed over only if it has no blockers / no selected blocker", key_of(fn, f"closure pass skips under {other}"), fn.loc(last.stmt if last.stmt is not None else inner[0]),
                     f"a closure pass {'leaves the scan' if end == 'leave' else 'skips a job'} under {other} without recording its restricted blockers: a dependent whose blockers join the rerun set in a later pass keeps "
                     "the stale (smaller) set, so it is released before all of its rerun blockers have finished", "each once and in dependency order")
     # prepare_for_resubmission reads that mapping for the job being reset
     pfn = ctx.ix.try_func("Cluster._prepare_for_resubmission") or ctx.fn("Cluster.prepare_for_resubmission", "C13.5")
-    okr = any(isinstance(n, ast.Assign) and ctx.src(n.targets[0]).endswith(".blocked_by") and ctx.src(n.value).replace(" ", "") == "updated_blocking_jobs_by_name.get(job.name,set())" for n in iter_own(pfn.node))
-    r.check(okr, "the reset job's remaining blockers come from that mapping (empty if absent)", key_of(pfn, "blocked_by from mapping"), pfn.loc(), "prepare_for_resubmission no longer sets blocked_by from updated_blocking_jobs_by_name.get(job.name, set())")
+    mp = pfn.params[-1]
+    okr = False
+    for n in iter_own(pfn.node):
+        if isinstance(n, ast.Assign) and isinstance(n.targets[0], ast.Attribute) and n.targets[0].attr == "blocked_by":
+            recv = ctx.src(n.targets[0].value)
+            okr = okr or ctx.src(n.value).replace(" ", "") == f"{mp}.get({recv}.name,set())"
+    r.check(okr, "the reset job's remaining blockers come from that mapping (empty if absent)", key_of(pfn, "blocked_by from mapping"), pfn.loc(), f"prepare_for_resubmission no longer sets blocked_by from {mp}.get(<job>.name, set())")
 
 
 @rule(P, "C13.6", "T8", "resubmission loads the submitter as an existing submission (setup is not rerun)", min_obligations=2)
